@@ -95,15 +95,19 @@ def _starts_doc(line):
 def json_expect(inp):
     """Allowed outcomes of JSONParser for list-of-lines or str input.
 
-    Strict:  no lines / empty string -> skip; a `null` document -> skip; a document that starts
+    Strict (the statement decides, the unchanged tree agrees):
+             no lines / empty string -> skip; a `null` document -> skip; a document that starts
              (first line beginning with { or [, noise lines before it are skipped: documented for
-             list input) and decodes to a non-empty mapping/sequence -> exactly that value, and
+             list input) and decodes to a mapping/sequence -> exactly that value - an EMPTY {} / [] included:
+             it is a valid mapping/sequence document, not an 'empty document' - and
              unparsed_lines == the skipped noise lines; undecodable -> parse error.
-    Lenient (weaker reading, see DESIGN.md C14): scalar documents (skip / parse / the scalar);
-             whitespace-only input (skip / parse); scalar or null preceded by noise (skip / parse /
-             value); an *empty* mapping/sequence document (value or skip: the class docstring says
-             'SkipComponent: when ... the loaded data is empty'); noise before a document in str
-             input (value or parse: the noise rule is documented for line lists)."""
+    Lenient (the statement is silent or the documentation contradicts it; kept as narrow as possible):
+             scalar documents: the scalar (what the class documents: only decoder errors are parse errors) or a
+             parse error (what the statement's 'anything else' says) - never a skip;
+             whitespace-only input: skip (statement: empty document) or parse error (decoder refuses it);
+             scalar after noise: the scalar or parse error; null after noise: skip or parse error
+             (the noise rule is stated for {/[ documents only);
+             noise before a document in str input: value or parse error (the noise rule is stated for lines)."""
     if isinstance(inp, list):
         lines = inp
         if not lines:
@@ -116,8 +120,6 @@ def json_expect(inp):
         if start is not None:
             st, v = _json_decode("\n".join(lines[start:]))
             if st == "ok":
-                if isinstance(v, (dict, list)) and len(v) == 0:
-                    return _exp(skip=True, values=[v], unparsed=lines[:start], why="empty container (lenient)")
                 return _exp(values=[v], unparsed=lines[:start], why="container document after %d noise lines" % start)
             return _exp(parse=True, why="undecodable from first {/[ line")
         text = "\n".join(lines)
@@ -125,17 +127,21 @@ def json_expect(inp):
         if st == "ok":
             if v is None:
                 return _exp(skip=True, why="null document")
-            return _exp(skip=True, parse=True, values=[v], why="scalar document (lenient)")
+            return _exp(parse=True, values=[v], why="scalar document (lenient)")
         if text.strip() == "":
             return _exp(skip=True, parse=True, why="whitespace only (lenient)")
         # scalar / null preceded by noise: lenient
         vals = []
+        null_after_noise = False
         for i in range(1, len(lines)):
             st2, v2 = _json_decode("\n".join(lines[i:]))
             if st2 == "ok":
-                vals.append(v2)
-        if vals:
-            return _exp(skip=True, parse=True, values=vals, why="scalar/null after noise (lenient)")
+                if v2 is None:
+                    null_after_noise = True
+                else:
+                    vals.append(v2)
+        if vals or null_after_noise:
+            return _exp(skip=null_after_noise, parse=True, values=vals, why="scalar/null after noise (lenient)")
         return _exp(parse=True, why="undecodable")
     text = inp
     if text == "":
@@ -145,14 +151,12 @@ def json_expect(inp):
         if v is None:
             return _exp(skip=True, why="null document")
         if isinstance(v, (dict, list)):
-            if len(v) == 0:
-                return _exp(skip=True, values=[v], why="empty container (lenient)")
             return _exp(values=[v], why="container document")
-        return _exp(skip=True, parse=True, values=[v], why="scalar document (lenient)")
+        return _exp(parse=True, values=[v], why="scalar document (lenient)")
     if text.strip() == "":
         return _exp(skip=True, parse=True, why="whitespace only (lenient)")
     sub = json_expect(text.split("\n"))
-    if sub["values"]:
+    if sub["values"] or sub["skip"]:
         return _exp(skip=sub["skip"], parse=True, values=sub["values"], why="str input with noise (lenient)")
     return _exp(parse=True, why="undecodable")
 
@@ -199,8 +203,7 @@ def yaml_expect(inp, ignore, decoders):
         elif c == "parse":
             exp["parse"] = True
         else:
-            if isinstance(c[1], (dict, list)) and len(c[1]) == 0:
-                exp["skip"] = True      # same weaker reading as for JSON: empty container may be skipped
+            # an empty {} / [] is a valid mapping/sequence document: exactly its value, as for JSON
             if not any(same(c[1], w) for w in exp["values"]):
                 exp["values"].append(c[1])
     exp["agree"] = len(set(kinds)) == 1 and len(exp["values"]) <= 1
